@@ -1260,6 +1260,23 @@ impl Obs for C17 {
                 }
                 by_content.push((q, hs));
             }
+            // the step number: the same board reached with one, two or three steps of this turn (the record
+            // of earlier boards padded with the current board, as when the piece took a longer way)
+            let mut by_step: Vec<u64> = vec![];
+            if step >= 1 {
+                for s2 in 1..=3usize {
+                    let mut pv: Vec<PieceBoard> = prev.clone();
+                    let cur = piece_board_of(&v.m.board);
+                    while pv.len() < s2 {
+                        pv.push(cur.clone());
+                    }
+                    pv.truncate(s2);
+                    let pb = piece_board_of(&v.m.board);
+                    let h = Zobrist::from_piece_board(pb.piece_board(), side, s2);
+                    let phase = Phase::PlayPhase(PlayPhase::new(init, pp.hash_history().clone(), pv, own, trapped));
+                    by_step.push(GameState::new(side, mn, phase, pb, h).transposition_hash());
+                }
+            }
             // the same neighbours once more, this time around a *clone of the state's own play phase*
             // (taken after the state has been asked for its hash), as a client does that edits a copy
             let real = eng.transposition_hash();
@@ -1279,9 +1296,9 @@ impl Obs for C17 {
                     c_content.push(cloned(side, &b));
                 }
             }
-            (base, real, by_status, other_side, by_content, (c_same, c_other, c_content, squares.first().copied()))
+            (base, real, by_status, other_side, by_content, (c_same, c_other, c_content, squares.first().copied()), by_step)
         });
-        let (base, real, by_status, other_side, by_content, cl) = match r {
+        let (base, real, by_status, other_side, by_content, cl, by_step) = match r {
             Ok(x) => x,
             Err(_) => {
                 st.bump("twin_construction_panicked");
@@ -1300,6 +1317,11 @@ impl Obs for C17 {
             ensure!(by_status[w[0]] != by_status[w[1]], "C17:status", "two states that differ only in the pending push/pull ({:?} vs {:?}) have the same transposition hash {:#018x}; both are {} with its own per-turn record, history and capture flag (captured this turn: {})", statuses[w[0]], statuses[w[1]], by_status[w[0]], v.describe(), v.m.captured_this_turn);
         }
         ensure!(other_side != base, "C17:side", "the state {} and the same state with the other side to move have the same transposition hash", v.describe());
+        for i in 0..by_step.len() {
+            for j in (i + 1)..by_step.len() {
+                ensure!(by_step[i] != by_step[j], "C17:step", "two states that differ only in the step number ({} vs {}) have the same transposition hash; both are {} with its turn-start board, history and capture flag", i + 1, j + 1, v.describe());
+            }
+        }
         if cl.0 == real {
             ensure!(cl.1 != real, "C17:side", "the state {} and the same state with the other side to move, built around a clone of its play phase, have the same transposition hash", v.describe());
             for i in 0..cl.2.len() {
